@@ -113,6 +113,14 @@ OPERANDS = [
 ]
 
 
+def confusable(text):
+    """a DIFFERENT program that a lossy normalisation (collapsing whitespace) would map to the same text: every blank
+    inside a string literal doubled; None when the text has no such literal"""
+    import re
+    out = re.sub(r'"[^"\n]*"', lambda m: m.group(0).replace(' ', '  '), text)
+    return out if out != text else None
+
+
 def run_body_case(case, res=None):
     b = case['body']
     lay = case['layout']
@@ -120,6 +128,13 @@ def run_body_case(case, res=None):
     p.block(b['block'])
     text, _pos = render(p.toks, lay['gaps'], lay['end_gaps'])
     info = {'body': b, 'layout': lay, 'text': text}
+    near = confusable(text)
+    if near is not None and '//' not in text and '/*' not in text:
+        # parsing is a function of the text alone: a near-identical text parsed just before must not matter
+        try:
+            oal.parse(near)
+        except Exception:
+            pass
     try:
         root = parse(text, info)
     except oal.ParseException as e:
